@@ -411,3 +411,69 @@ pub fn repo_fingerprint() -> String {
     let dirty = run(&["diff", "HEAD", "--", "hydro_lang", "dfir_rs", "dfir_lang", "hydro_std"]);
     format!("{}:{:x}", head.trim(), vcommon::hash_of(&dirty))
 }
+
+// ---------------------------------------------------------------------------------------------
+// surviving `std::process::abort()` inside the simulator
+
+// The simulator reports broken internal invariants (`abort_assert!`, e.g. "tick DFIR run_tick()
+// returned false" when a tick was scheduled with nothing released into it) by aborting the whole
+// process, which would silently kill the monitor. A SIGABRT handler prints a pre-rendered report
+// (set by `arm_abort_report`) and exits, so the observation is not lost.
+unsafe extern "C" {
+    fn signal(signum: i32, handler: usize) -> usize;
+    fn write(fd: i32, buf: *const u8, count: usize) -> isize;
+    fn _exit(code: i32) -> !;
+}
+
+static ABORT_MSG_PTR: std::sync::atomic::AtomicPtr<u8> = std::sync::atomic::AtomicPtr::new(std::ptr::null_mut());
+static ABORT_MSG_LEN: std::sync::atomic::AtomicUsize = std::sync::atomic::AtomicUsize::new(0);
+
+extern "C" fn on_abort(_sig: i32) {
+    let p = ABORT_MSG_PTR.load(std::sync::atomic::Ordering::SeqCst);
+    let n = ABORT_MSG_LEN.load(std::sync::atomic::Ordering::SeqCst);
+    unsafe {
+        if !p.is_null() {
+            let _ = write(1, p, n);
+        }
+        _exit(0);
+    }
+}
+
+pub fn install_abort_handler() {
+    const SIGABRT: i32 = 6;
+    unsafe {
+        signal(SIGABRT, on_abort as usize);
+    }
+}
+
+/// Prepare what is printed if the simulator aborts the process from now on: an optional violation
+/// line and a summary line that marks the run as incomplete.
+pub fn arm_abort_report(prop: &str, violation_sig: Option<&str>, case: &serde_json::Value, evaluations: u64) {
+    let mut text = String::from("\n");
+    if let Some(sig) = violation_sig {
+        text.push_str(
+            &serde_json::json!({"t": "violation", "prop": prop, "sig": sig,
+                "what": "the simulator aborted the process (abort_assert!: 'Simulator internal error', see stderr) while running this case",
+                "case": case})
+            .to_string(),
+        );
+        text.push('\n');
+    }
+    text.push_str(
+        &serde_json::json!({"t": "summary", "prop": prop, "evaluations": evaluations, "distinct_nontrivial": 0,
+            "rule": "run cut short: the simulator aborted the process", "samples": [], "exhaustive": false, "min_obs_ok": false,
+            "min_obs_reason": [format!("the simulator aborted the process while running {case}")], "extra": {},
+            "violations": if violation_sig.is_some() { 1 } else { 0 }})
+        .to_string(),
+    );
+    text.push('\n');
+    // the handler runs on this (the only simulation) thread, so swapping the buffer here cannot
+    // race with it; the previous buffer is freed
+    let leaked: &'static mut [u8] = Box::leak(text.into_bytes().into_boxed_slice());
+    let old_len = ABORT_MSG_LEN.swap(0, std::sync::atomic::Ordering::SeqCst);
+    let old_ptr = ABORT_MSG_PTR.swap(leaked.as_mut_ptr(), std::sync::atomic::Ordering::SeqCst);
+    ABORT_MSG_LEN.store(leaked.len(), std::sync::atomic::Ordering::SeqCst);
+    if !old_ptr.is_null() {
+        drop(unsafe { Box::from_raw(std::ptr::slice_from_raw_parts_mut(old_ptr, old_len)) });
+    }
+}
